@@ -57,6 +57,7 @@ def run(rep, tier):
     c02_small.run(rep, F, DI, DC, tier)
     c02_small.run_linestring(rep, F, DI, tier)
     c02_small.run_linear_contains(rep, F, DC, tier)
+    c02_small.run_contains_folds(rep, F)
     c02_linear.run(rep, F, tier, D_int=DI)
     # the bounding-box rejections (has_disjoint_bboxes, relate's envelope shortcut) are only as right as bounding_rect itself (tables shared with C19)
     from . import c19
